@@ -10,11 +10,14 @@ import (
 	"encoding/json"
 	"errors"
 	"fmt"
+	"io"
+	"net"
 	"os"
 	"path/filepath"
 	"strings"
 	"sync"
 	"sync/atomic"
+	"syscall"
 	"time"
 
 	"github.com/go-spring/log"
@@ -141,6 +144,8 @@ func cmdSinkFaults(f hx.Flags, r *hx.Result) {
 	}
 	defer os.RemoveAll(tmp)
 	defer asyncRotationFailure(r, tmp)
+	defer creationFailureKinds(r, tmp)
+	defer consoleErrorKinds(r)
 	n := 0
 	sigs := map[string]bool{}
 	err = hx.ReadCases(f.Str("cases", ""), func(raw json.RawMessage) error {
@@ -264,4 +269,151 @@ func cmdSinkFaults(f hx.Flags, r *hx.Result) {
 		r.SetInfra("read cases: %v", err)
 	}
 	r.NonTrivial(int64(len(sigs)))
+}
+
+// creationFailureKinds: the ways in which creating the next file can fail, beyond "the directory was renamed away":
+// the directory's path is occupied by a regular file (ENOTDIR), by a link to itself (ELOOP), the next file's name is
+// taken by a directory (EISDIR), the next name is a link into a directory that does not exist (ENOENT on the link's
+// target).  Each time: the write at the boundary returns and lands in the file the appender already has, and after
+// the repair the write at the following boundary lands in a new file.
+func creationFailureKinds(r *hx.Result, tmp string) {
+	for _, kind := range []string{"notdir", "loop", "isdir", "danglinglink", "away"} {
+		dir := filepath.Join(tmp, "cf-"+kind)
+		away := dir + ".away"
+		_ = os.MkdirAll(dir, 0o755)
+		var mu sync.Mutex
+		now := time.Date(2037, 2, 3, 4, 0, 0, 0, time.UTC)
+		log.VerifNow = func(time.Time) time.Time { mu.Lock(); defer mu.Unlock(); return now }
+		tick := func() { mu.Lock(); now = now.Add(time.Hour); mu.Unlock() }
+		nameAt := func(t time.Time) string { return "c.log." + t.In(time.Local).Format("20060102150405") }
+		app := &log.RollingFileAppender{Layout: &log.TextLayout{BaseLayout: log.BaseLayout{FileLineLength: 48}}, FileDir: dir, FileName: "c.log",
+			Rotation: log.TimeRotation{Interval: time.Hour}, MaxAge: 1000}
+		desc := map[string]any{"failure": kind, "history": "Start, write A, break, boundary, write B, write B2, repair, boundary, write C, Stop"}
+		if err := app.Start(); err != nil {
+			r.SetInfra("creationFailureKinds start: %v", err)
+			log.VerifNow = nil
+			return
+		}
+		ok, p := hx.Within(10*time.Second, func() {
+			app.Write([]byte("A\n"))
+			next := nameAt(now.Add(time.Hour))
+			switch kind {
+			case "notdir":
+				_ = os.Rename(dir, away)
+				_ = os.WriteFile(dir, []byte("not a directory\n"), 0o644)
+			case "loop":
+				_ = os.Rename(dir, away)
+				_ = os.Symlink(dir, dir)
+			case "isdir":
+				_ = os.Mkdir(filepath.Join(dir, next), 0o755)
+			case "danglinglink":
+				_ = os.Symlink(filepath.Join(dir, "no-such-dir", "x"), filepath.Join(dir, next))
+			case "away":
+				_ = os.Rename(dir, away)
+			}
+			tick()
+			app.Write([]byte("B\n"))
+			app.Write([]byte("B2\n"))
+			switch kind {
+			case "notdir", "loop":
+				_ = os.Remove(dir)
+				_ = os.Rename(away, dir)
+			case "away":
+				_ = os.Rename(away, dir)
+			case "isdir", "danglinglink":
+				_ = os.Remove(filepath.Join(dir, next))
+			}
+			tick()
+			app.Write([]byte("C\n"))
+			app.Stop()
+		})
+		log.VerifNow = nil
+		r.Eval(4)
+		if !ok || p != nil {
+			r.Violate("blocked:creation-failure", desc, "the history returned=%v panic=%v", ok, p)
+			os.RemoveAll(dir)
+			os.RemoveAll(away)
+			continue
+		}
+		files := map[string]string{}
+		ents, _ := os.ReadDir(dir)
+		for _, e := range ents {
+			if !e.IsDir() {
+				b, _ := os.ReadFile(filepath.Join(dir, e.Name()))
+				files[e.Name()] = string(b)
+			}
+		}
+		first, third := nameAt(now.Add(-2*time.Hour)), nameAt(now)
+		if files[first] != "A\nB\nB2\n" || files[third] != "C\n" || len(files) != 2 {
+			r.Violate("sink-delivery:creation-failure", desc, "after the history the directory holds %q; want %s = A B B2 (the file the appender kept) and %s = C (created at the next boundary)", files, first, third)
+		}
+		os.RemoveAll(dir)
+		os.RemoveAll(away)
+	}
+}
+
+type tempErr struct{}
+
+func (tempErr) Error() string   { return "resource temporarily unavailable" }
+func (tempErr) Temporary() bool { return true }
+func (tempErr) Timeout() bool   { return true }
+
+type errWriter struct {
+	err   error
+	short bool
+	calls int64
+}
+
+func (w *errWriter) Write(b []byte) (int, error) {
+	atomic.AddInt64(&w.calls, 1)
+	if w.short && len(b) > 1 {
+		return len(b) / 2, w.err
+	}
+	return 0, w.err
+}
+
+// consoleErrorKinds: console targets that fail in the ways streams fail - persistently "temporarily unavailable",
+// timeouts, short writes with and without an error, a connection whose write deadline has passed: every log call and
+// raw write returns, and the target is not hammered.
+func consoleErrorKinds(r *hx.Result) {
+	save := log.Stdout
+	defer func() { log.Stdout = save }()
+	c1, c2 := net.Pipe()
+	defer c1.Close()
+	defer c2.Close()
+	_ = c1.SetWriteDeadline(time.Now().Add(-time.Second))
+	targets := map[string]io.Writer{
+		"persistent temporary error":         &errWriter{err: tempErr{}},
+		"persistent EAGAIN":                  &errWriter{err: syscall.EAGAIN},
+		"persistent EINTR":                   &errWriter{err: syscall.EINTR},
+		"short writes with io.ErrShortWrite": &errWriter{err: io.ErrShortWrite, short: true},
+		"short writes without an error":      &errWriter{short: true},
+		"connection past its write deadline": c1,
+	}
+	for name, w := range targets {
+		log.Stdout = w
+		app := &log.ConsoleAppender{Layout: &log.TextLayout{BaseLayout: log.BaseLayout{FileLineLength: 48}}}
+		_ = app.Start()
+		desc := map[string]any{"console_target": name}
+		ok, p := hx.Within(5*time.Second, func() {
+			for i := 0; i < 3; i++ {
+				e := log.GetEvent()
+				e.Level, e.Tag, e.Time = log.InfoLevel, "t", time.Now()
+				e.Fields = []log.Field{log.Int("id", int64(i+1))}
+				app.Append(e)
+				app.Write([]byte("raw line\n"))
+			}
+			app.Stop()
+		})
+		r.Eval(6)
+		if !ok || p != nil {
+			r.Violate("blocked:append:console", desc, "three events and three raw writes to a console target with %s: returned=%v panic=%v", name, ok, p)
+			if !ok {
+				return // a goroutine is left spinning
+			}
+		}
+		if ew, isEW := w.(*errWriter); isEW && atomic.LoadInt64(&ew.calls) > 600 {
+			r.Violate("blocked:append:console", desc, "six deliveries led to %d write calls on the failing target", atomic.LoadInt64(&ew.calls))
+		}
+	}
 }
